@@ -234,7 +234,8 @@ func init() {
 					if g.read != nil {
 						rp = accessPath(g.read.Val)
 					}
-					okR := g.read != nil && strings.Contains(rp, "GetOrCreateResourceNode({Rule}.RefResource") && strings.Contains(rp, "GetOrCreateResourceNode({Rule}.Resource")
+					okR := g.read != nil && ((strings.Contains(rp, "GetOrCreateResourceNode({Rule}.RefResource") && strings.Contains(rp, "GetOrCreateResourceNode({Rule}.Resource")) ||
+						strings.Contains(rp, "GetOrCreateResourceNode(phi({Rule}.Resource|{Rule}.RefResource)") || strings.Contains(rp, "GetOrCreateResourceNode(phi({Rule}.RefResource|{Rule}.Resource)"))
 					c.Check(okW && okR, key, g.reuse.Pos(), "reuse: write side nil=%v; read side %s (want derived from the node selected by relation strategy)", okW, rp)
 				} else {
 					nStandalone++
@@ -274,6 +275,27 @@ func init() {
 					}
 					if strings.Contains(p, "GetOrCreateResourceNode({Rule}.Resource") && guardNe {
 						okRes = true
+					}
+					// one call, the name chosen by the strategy: phi of the two names that feeds GetOrCreateResourceNode
+					feedsNode := false
+					for _, r := range refsOf(phi) {
+						if ci, ok := r.(ssa.CallInstruction); ok && ci.Common().StaticCallee() != nil && ci.Common().StaticCallee().Name() == "GetOrCreateResourceNode" {
+							feedsNode = true
+						}
+					}
+					if feedsNode {
+						// the fact of the incoming edge counts too (if without else: one edge comes straight from the test)
+						for _, ft := range edgeFact(phi.Block().Preds[i], phi.Block()) {
+							fs[canonCond(ft.Cond, ft.Truth)] = true
+						}
+						guardEq = fs[fmt.Sprintf("%d == {Rule}.RelationStrategy", assoc)]
+						guardNe = fs[fmt.Sprintf("%d != {Rule}.RelationStrategy", assoc)]
+						if p == "{Rule}.RefResource" && guardEq {
+							okRef = true
+						}
+						if p == "{Rule}.Resource" && guardNe {
+							okRes = true
+						}
 					}
 				}
 				if okRef && okRes {
